@@ -90,6 +90,22 @@ impl From<ArcIri> for RdfTerm {
     }
 }
 
+/// The first blank node identifier of `q`, if any, that is not a valid [`BnodeId`](sophia_api::term::BnodeId)
+/// (`json_ld` accepts e.g. `_:a:b`, which reaches us unchanged as a generalized-RDF predicate).
+pub fn invalid_bnode(q: &RdfQuad) -> Option<&str> {
+    let o = match &q.2 {
+        Term::Id(id) => Some(id),
+        Term::Literal(_) => None,
+    };
+    [Some(&q.0), Some(&q.1), o, q.3.as_ref()]
+        .into_iter()
+        .flatten()
+        .find_map(|id| match id {
+            Id::Blank(b) if sophia_api::term::BnodeId::new(&b[2..]).is_err() => Some(&b[..]),
+            _ => None,
+        })
+}
+
 pub fn convert_quad(q: RdfQuad) -> Spog<RdfTerm> {
     (
         [RdfTerm::from(q.0), RdfTerm::from(q.1), RdfTerm::from(q.2)],
